@@ -382,6 +382,10 @@ def p_mixed(h, d):
         yield Msg("save")
         yield Msg("unsubscribe", None, tok)
         yield Msg("sleep", None, 0.1)
+        yield Msg("null")
+        yield Msg("unstage", d["m2"])      # a device this plan never staged: still an implicit checkpoint
+        yield Msg("null")
+        yield Msg("sleep", None, 0.05)
         yield Msg("unmonitor", sig)
         yield Msg("checkpoint")
         yield Msg("null")
@@ -524,7 +528,7 @@ def p_responses(h, d):
     return body()
 
 
-def make_keys_plan(seed, nkeys=3, dup=False, use_wrapper=False):
+def make_keys_plan(seed, nkeys=3, dup=False, use_wrapper=False, sparse=False):
     """nested / interleaved runs with run keys K0..Kn-1; run Ki only ever reads detector kdet<i>."""
     import random
 
@@ -550,10 +554,18 @@ def make_keys_plan(seed, nkeys=3, dup=False, use_wrapper=False):
             key = f"K{k}"
             if step == "open":
                 yield Msg("open_run", run=key, key=key)
-                yield Msg("checkpoint")
+                if not sparse:
+                    yield Msg("checkpoint")
+                else:
+                    yield Msg("sleep", None, 0.02)
             elif step == "close":
                 yield Msg("close_run", run=key)
-                yield Msg("checkpoint")
+                if not sparse:
+                    yield Msg("checkpoint")
+                else:
+                    # work after a close_run with no explicit checkpoint: only the implicit one protects the other runs
+                    yield Msg("null")
+                    yield Msg("sleep", None, 0.05)
             else:
                 yield Msg("checkpoint")
                 yield Msg("set", m1, float(rng.randint(0, 5)), group="mv")
@@ -621,6 +633,8 @@ CORPUS = {
     "keys_dup": make_keys_plan(4, 3, dup=True),
     "keys_wrap": make_keys_plan(5, 3, use_wrapper=True),
     "keys_dup2": make_keys_plan(6, 2, dup=True),
+    "keys_sparse": make_keys_plan(7, 3, sparse=True),
+    "keys_sparse2": make_keys_plan(8, 2, sparse=True),
     "clearcp0": make_clearcp(0),
     "clearcp1": make_clearcp(1),
     "clearcp2": make_clearcp(2, "tryfinally"),
